@@ -559,7 +559,7 @@ Section WithRank.
       assert (N2 : ~ ancs h new c).
       { intros X. apply (Hr new). split; [exact X | left; reflexivity]. }
       assert (ECf : (exists x, com c new x) -> False) by (intros [x Hx]; apply (Hr x Hx)).
-      repeat split; intros; try discriminate; try reflexivity; unfold ancs in *; tauto.
+      repeat split; intros; try discriminate; try reflexivity; try apply Hr; unfold ancs in *; tauto.
   Qed.
 
   (* the boolean the callers look at: true iff the head is an ancestor-or-equal of the target *)
@@ -569,3 +569,19 @@ Section WithRank.
     intros Hc Hn. destruct (can_ff_spec c new Hc Hn) as [U [O _]]. unfold ancs. rewrite U, O. tauto.
   Qed.
 End WithRank.
+
+(* ---- non-vacuity and a recorded difference between the two walks ---- *)
+Example criss_cross_wf : wf_histb [[]; [0]; [0]; [1; 2]; [2; 1]; [3]; [4]; []] = true.
+Proof. reflexivity. Qed.
+
+(* two merge bases of equal height (commits 1 and 2): the closure walk takes the
+   greater address, the parents walk the smaller one; both are order independent *)
+Example variants_differ :
+  let hh := [[]; [0]; [0]; [1; 2]; [2; 1]; [3]; [4]; []] in
+  let rk := fun c : nat => c in
+  mb_closure rk (store_of rk hh) 5 6 = Some 2 /\ mb_closure rk (store_of rk hh) 6 5 = Some 2 /\
+  mb_parents rk (store_of rk hh) 5 6 = Some (Some 1) /\ mb_parents rk (store_of rk hh) 6 5 = Some (Some 1) /\
+  find_common_ancestor rk (store_of rk hh) 5 7 = Some None /\
+  can_ff rk (store_of rk hh) 1 5 = FF_ok /\ can_ff rk (store_of rk hh) 5 6 = FF_diverged /\
+  walk (store_of rk hh) 5 [0; 1] = Some 2 /\ walk (store_of rk hh) 5 [0; 1; 0; 0] = None.
+Proof. vm_compute. repeat split; reflexivity. Qed.
